@@ -47,13 +47,62 @@ def verdict(ctx, checker_cmd):
     return rc
 
 
+def _descendants(pid):
+    kids = {}
+    for d in os.listdir("/proc"):
+        if d.isdigit():
+            try:
+                ppid = int(open(f"/proc/{d}/stat").read().rsplit(")", 1)[1].split()[1])
+            except Exception:
+                continue
+            kids.setdefault(ppid, []).append(int(d))
+    out, todo = [], [pid]
+    while todo:
+        for k in kids.get(todo.pop(), []):
+            out.append(k)
+            todo.append(k)
+    return out
+
+
+def _watchdog(ctx, checker_cmd, budget):
+    """the check did not finish within `budget` seconds (the unchanged tree needs a small fraction of it):
+    report what was found so far; if nothing was, the property is no longer shown to hold"""
+    import signal
+    import threading
+
+    def fire():
+        try:
+            log(f"watchdog: no verdict after {budget}s (stage: {ctx.extra.get('stage', '?')})")
+            if not ctx.oracle_failures:
+                ctx.broken.append(f"check did not terminate within {budget}s; stage={ctx.extra.get('stage', '?')}; "
+                                  f"evaluations so far={ctx.evaluations}; last counted case={getattr(ctx, 'last_case', None)}")
+            rc = verdict(ctx, checker_cmd)
+            sys.stdout.flush()
+        except Exception:
+            traceback.print_exc()
+            rc = 2
+        for k in _descendants(os.getpid()):
+            try:
+                os.kill(k, signal.SIGKILL)
+            except Exception:
+                pass
+        os._exit(rc)
+    t = threading.Timer(budget, fire)
+    t.daemon = True
+    t.start()
+    return t
+
+
 def run_check(prop, tier, seed, replay=None):
     mod = importlib.import_module(f"vlib.{prop.lower()}")
     ctx = Ctx(prop, tier, seed)
     drivers = getattr(mod, "DRIVERS", [f"kd_{prop.lower()}"])
     checker_cmd = f"cd lean && lake build {' '.join(mod.MODULES)} {' '.join(drivers)} && lake env lean <audit: #print axioms of {len(mod.THEOREMS)} theorems>"
+    budget = int(os.environ.get("VERIF_BUDGET_S", "1800" if tier == "quick" else "10800"))
+    wd = _watchdog(ctx, checker_cmd, budget)
     try:
         # 1. translator: regenerate Generated/*.lean from /repo
+        ctx.extra["stage"] = "build"
         if hasattr(mod, "extract"):
             try:
                 mod.extract(ctx)
@@ -84,13 +133,17 @@ def run_check(prop, tier, seed, replay=None):
                                stdout=subprocess.PIPE, stderr=subprocess.STDOUT, text=True, timeout=1800)
             ctx.obligation("leanchecker " + " ".join(mod.MODULES), p.returncode == 0, p.stdout[-500:])
         # 4./5. correspondence + oracle
+        ctx.extra["stage"] = "run"
         if replay:
             case = json.loads(open(replay).read())
             mod.replay(ctx, case)
         else:
             mod.run(ctx)
+        wd.cancel()
+        ctx.extra.pop("stage", None)
         return verdict(ctx, checker_cmd)
     finally:
+        wd.cancel()
         ctx.cleanup()
 
 
